@@ -152,6 +152,8 @@ class History:
                     "types": [type_str(s.item_type) for s in self.streams],
                     "lookups": [[(lookup_query_metadata(s, k) or 0) for k in KEYS] for s in self.streams],
                     "newexec": newexec, "done": done, "exc": exc,
+                    "roots": [self._root_of(s) for s in self.streams],
+                    "mix": self._mix() if step == len(self.actions) else [],
                 })
                 if exc:
                     break           # later steps would refer to streams that do not exist
@@ -162,6 +164,35 @@ class History:
             self._step_loop()
             self.loop.close()
         return recs
+
+    def _root_of(self, s):
+        """find_EventDataset on the stream's query: index of the dataset object found (0: failure)."""
+        from func_adl import find_EventDataset
+        try:
+            node = find_EventDataset(s.query_ast)
+            obj = getattr(node, "_eds_object", None)
+            return getattr(obj, "idx", 0) if obj is not None else 0
+        except Exception:
+            return 0
+
+    def _mix(self):
+        """queries with two roots / no root must be rejected by find_EventDataset"""
+        from func_adl import find_EventDataset
+        out = []
+        if len(self.streams) >= 1:
+            a, b = self.streams[0], self.streams[-1]
+            two = ast.Call(func=ast.Name(id="Zip", ctx=ast.Load()), args=[a.query_ast, b.query_ast], keywords=[])
+            nested = ast.Call(func=ast.Name(id="Select", ctx=ast.Load()),
+                              args=[a.query_ast, ast.Lambda(args=ast.arguments(posonlyargs=[], args=[ast.arg(arg="e")],
+                                    kwonlyargs=[], kw_defaults=[], defaults=[]), body=b.query_ast)], keywords=[])
+            none = ast.parse("Select(seq, lambda e: e.x)").body[0].value
+            for kind, q in (("two", two), ("nested", nested), ("none", none)):
+                try:
+                    find_EventDataset(q)
+                    out.append({"kind": kind, "raised": False})
+                except Exception:
+                    out.append({"kind": kind, "raised": True})
+        return out
 
     def _do(self, a, step):
         act = a["act"]
